@@ -9,6 +9,7 @@ package props
 import (
 	"bytes"
 	"crypto/ecdsa"
+	"encoding/hex"
 	"crypto/sha256"
 	"fmt"
 	"math/big"
@@ -190,17 +191,25 @@ type ethAcct struct {
 
 func newClWorld(c *simkit.Ctx, nSync int) *clWorld {
 	w := &clWorld{c: c, nonce: 1, pendingEth: map[ethcomm.Address]uint64{}}
-	w.A = world.NewSoloChain(c, "A")
-	c.Must(w.A.Open(), "open A")
-	for i := 0; i < nSync; i++ {
-		b := w.A.Twin(fmt.Sprintf("S%d", i))
-		c.Must(b.Open(), "open sync node")
-		w.Sync = append(w.Sync, b)
+	book := account.NewAccount("")
+	if nSync >= 0 {
+		w.A = world.NewSoloChain(c, "A")
+		c.Must(w.A.Open(), "open A")
+		book = w.A.Book
+		for i := 0; i < nSync; i++ {
+			b := w.A.Twin(fmt.Sprintf("S%d", i))
+			c.Must(b.Open(), "open sync node")
+			w.Sync = append(w.Sync, b)
+		}
+		w.ts = w.A.Now
+	} else {
+		// no ledger: only the parties (properties about the intake of bytes)
+		world.Init()
+		world.SoloConfig(hex.EncodeToString(keypair.SerializePublicKey(book.PublicKey)))
 	}
-	w.ts = w.A.Now
 	t := c.Tape
 	// parties: the bookkeeper, one single key per scheme (tape-chosen subset), an eth-type key, two groups
-	w.parties = append(w.parties, &clParty{name: "book", accs: []*account.Account{w.A.Book}, m: 1})
+	w.parties = append(w.parties, &clParty{name: "book", accs: []*account.Account{book}, m: 1})
 	for i := 0; i < 3; i++ {
 		sc := clSchemes[t.Choose(len(clSchemes))]
 		w.parties = append(w.parties, &clParty{name: sc, accs: []*account.Account{account.NewAccount(sc)}, m: 1})
